@@ -424,7 +424,16 @@ class Tr:
                     return V("int", f"Py.band {paren(y)} {a.const}")
                 return V("int", f"Py.land {paren(x)} {paren(y)}")
             fn = "Py.bor" if isinstance(op, ast.BitOr) else "Py.bxor"
-            return V("int", f"{fn} {paren(x)} {paren(y)}")
+            # commutative and associative: operands of a chain flattened and sorted, rebuilt left-nested
+            ops_a = getattr(a, "chain", None) if getattr(a, "chain_fn", None) == fn else None
+            ops_b = getattr(b, "chain", None) if getattr(b, "chain_fn", None) == fn else None
+            operands = sorted((ops_a or [x]) + (ops_b or [y]))
+            lean = operands[0]
+            for t in operands[1:]:
+                lean = f"{fn} {paren(lean)} {paren(t)}"
+            v = V("int", lean)
+            v.chain, v.chain_fn = operands, fn
+            return v
         if isinstance(op, (ast.LShift, ast.RShift)):
             if b.const is None or b.kind != "int" or b.const < 0:
                 raise Unsupported("shift by a non-literal amount")
@@ -832,14 +841,14 @@ class Tr:
                     raise Unsupported("loop must carry exactly one int variable")
                 acc = carried[0]
                 inner = dict(st)
-                inner[acc] = V("int", acc)
-                inner[s.target.id] = V("int", s.target.id)
+                inner[acc] = V("int", "acc")            # canonical names for the carried value and the element
+                inner[s.target.id] = V("int", "elem")
                 psc = Scope(sc)
                 psc.pure_branch = True
                 after = self.pure_block(s.body, inner, psc)
                 if after[acc].kind != "int":
                     raise Unsupported("loop variable changes kind")
-                st[acc] = V("int", f"List.foldl (fun ({acc} : Int) ({s.target.id} : Int) => {after[acc].lean}) "
+                st[acc] = V("int", f"List.foldl (fun (acc : Int) (elem : Int) => {after[acc].lean}) "
                                    f"{paren(st[acc].lean)} {paren(self.seq_term(it))}")
                 continue
             if isinstance(s, ast.If):
@@ -1017,18 +1026,71 @@ def is_log_call(stmt):
             and stmt.value.func.attr in ("debug", "info", "warning", "error", "exception", "critical", "log"))
 
 
+NEG_OP = {ast.Lt: ast.GtE, ast.GtE: ast.Lt, ast.Gt: ast.LtE, ast.LtE: ast.Gt, ast.Eq: ast.NotEq, ast.NotEq: ast.Eq,
+          ast.Is: ast.IsNot, ast.IsNot: ast.Is}
+
+
+def _atoms(test):
+    """a test as a list of single-operator comparisons all of which must hold, or None when it is not of that shape"""
+    if isinstance(test, ast.Compare):
+        out, left = [], test.left
+        for op, right in zip(test.ops, test.comparators):
+            out.append(ast.Compare(left=left, ops=[op], comparators=[right]))
+            left = right
+        return out
+    if isinstance(test, ast.BoolOp) and isinstance(test.op, ast.And):
+        out = []
+        for v in test.values:
+            a = _atoms(v)
+            if a is None:
+                return None
+            out += a
+        return out
+    return None
+
+
+def _negate_atom(c):
+    op = type(c.ops[0])
+    if op not in NEG_OP:
+        return None
+    return ast.Compare(left=c.left, ops=[NEG_OP[op]()], comparators=c.comparators)
+
+
+def _orient(c):
+    """`a >= b` -> `b <= a`, `a > b` -> `b < a` (only < <= != == is/is not remain)"""
+    op = type(c.ops[0])
+    if op is ast.GtE:
+        return ast.Compare(left=c.comparators[0], ops=[ast.LtE()], comparators=[c.left])
+    if op is ast.Gt:
+        return ast.Compare(left=c.comparators[0], ops=[ast.Lt()], comparators=[c.left])
+    return c
+
+
 def canon_test(test):
-    """conditions in a canonical polarity, so that `if a == b: X else: Y`, `if a != b: Y else: X` and `if not (a != b): ...`
-    translate to the same text: top-level `not` is eliminated and a single `==` becomes `!=`; returns (test, swapped)"""
+    """conditions in a canonical polarity, so that `if a == b: X else: Y`, `if a != b: Y else: X`, `if not (a != b): ...`,
+    `17 <= t <= 30` and `not (t < 17 or t > 30)` translate to the same text: negations are pushed into the comparisons, an
+    `or` of comparisons becomes the (negated) `and` of the negated comparisons, a single `==` becomes `!=`, comparisons are
+    oriented (`<`, `<=` only) and conjunctions sorted; returns (test, swapped)"""
     swapped = False
-    while True:
-        if isinstance(test, ast.UnaryOp) and isinstance(test.op, ast.Not):
-            test, swapped = test.operand, not swapped
-            continue
-        if isinstance(test, ast.Compare) and len(test.ops) == 1 and isinstance(test.ops[0], ast.Eq):
-            test = ast.Compare(left=test.left, ops=[ast.NotEq()], comparators=test.comparators)
-            swapped = not swapped
-        return test, swapped
+    while isinstance(test, ast.UnaryOp) and isinstance(test.op, ast.Not):
+        test, swapped = test.operand, not swapped
+    if isinstance(test, ast.BoolOp) and isinstance(test.op, ast.Or):
+        parts = []
+        for v in test.values:
+            a = _atoms(v)
+            if a is None or len(a) != 1 or _negate_atom(a[0]) is None:
+                parts = None
+                break
+            parts.append(_negate_atom(a[0]))
+        if parts is not None:
+            test, swapped = ast.BoolOp(op=ast.And(), values=parts), not swapped
+    atoms = _atoms(test)
+    if atoms is not None:
+        if len(atoms) == 1 and isinstance(atoms[0].ops[0], ast.Eq):
+            atoms, swapped = [_negate_atom(atoms[0])], not swapped
+        atoms = sorted((_orient(a) for a in atoms), key=ast.dump)
+        test = atoms[0] if len(atoms) == 1 else ast.BoolOp(op=ast.And(), values=atoms)
+    return test, swapped
 
 
 def find_func(tree, qual):
